@@ -116,6 +116,13 @@ fn run_case<C: Suite>(c: &Case) -> Outcome {
         return o;
     }
     let stranger = Identifier::<C>::try_from(31337u16).unwrap();
+    // unknown identifiers that differ from the sender only in high-order bits
+    let sbits = sc_bytes::<C>(&one::<C>()).len() as u32 * 8;
+    let near: Vec<Id<C>> = [sbits - 16, sbits - 64, 384u32.min(sbits - 24)]
+        .iter()
+        .filter_map(|k| Identifier::<C>::new(id_scalar::<C>(&a.ids[c.sender]) + pow2::<C>(*k)).ok())
+        .filter(|i| !a.ids.contains(i))
+        .collect();
     let g = G::<C>::generator();
     let sender_hex = id_hex::<C>(&s);
 
@@ -287,6 +294,20 @@ fn run_case<C: Suite>(c: &Case) -> Outcome {
         m.remove(&s);
         m.insert(stranger, p.clone());
         judge(&mut o, "round2-filed-under-unknown-id", "part3", C::w_part3(&h_sp2, &honest_r1, &m).err(), Want::Subset);
+        for nid in &near {
+            let mut m = honest_r2.clone();
+            m.remove(&s);
+            m.insert(*nid, p.clone());
+            judge(&mut o, "round2-filed-under-unknown-id-differing-in-high-bits", "part3", C::w_part3(&h_sp2, &honest_r1, &m).err(), Want::Subset);
+            let mut m1 = honest_r1.clone();
+            let pk = m1.remove(&s).unwrap();
+            m1.insert(*nid, pk);
+            match C::w_part2(a.sp1[&r].clone(), &m1) {
+                // the error may name the unknown filing identifier (the proof is not valid for it): any refusal
+                Err(e) => judge(&mut o, "round1-filed-under-unknown-id-differing-in-high-bits", "part2", Some(e), Want::Any),
+                Ok((sp2x, _)) => judge(&mut o, "round1-filed-under-unknown-id-differing-in-high-bits", "part3", C::w_part3(&sp2x, &m1, &honest_r2).err(), Want::Any),
+            }
+        }
         let mut m = honest_r2.clone();
         m.remove(&s);
         judge(&mut o, "round2-missing", "part3", C::w_part3(&h_sp2, &honest_r1, &m).err(), Want::Subset);
